@@ -219,7 +219,7 @@ const c24Rule = "parse a file into a parse result, Clone it; oracle: protos equa
 func TestC24_Generated(t *testing.T) {
 	ev.Run(t, ev.Spec[srcCase]{ID: "C24", Name: "Generated", Quick: 1200, Thorough: 50000, Rule: "generated valid files (maps, groups, proto3 optional, extension ranges, reserved ranges/names, options everywhere); " + c24Rule,
 		Gen: func(t *rapid.T) srcCase {
-			ws := gen.GenWorkspace(t, gen.Config{MaxFiles: 2})
+			ws := gen.GenWorkspace(t, gen.Config{MaxFiles: 2, CustomOpts: gen.Pct(t, 60, "custom")})
 			f := ws.Files[rapid.IntRange(0, len(ws.Files)-1).Draw(t, "which")]
 			return srcCase{Name: f.Name, Text: gen.Print(f)}
 		},
